@@ -18,7 +18,7 @@ import wn
 import wn.lmf as lmf
 import wn.validate as V
 from wn.constants import REVERSE_RELATIONS, SENSE_RELATIONS, SENSE_SYNSET_RELATIONS, SYNSET_RELATIONS
-from vc.core import Obligation, Session, Unsupported
+from vc.core import Obligation, Session, Unsupported, REPO
 from vc.pyvc.values import SV, SObj, SList, Seq, Lit, Loop, mk, LITS, UStr, z_and, z_or, z_not, z_bool, Sym
 from vc.pyvc.interp import explore, source_span, MDict, MList, MSet, SymMethod
 from vc.pyvc import shapes, builtins_sym as B
@@ -349,6 +349,57 @@ def rejection_bounded(sess: Session):
                                          'wn._add._insert_sense_relations'))
 
 
+def cli_bounded(sess: Session):
+    """`python -m wn validate FILE`: exit status 1 iff some lexicon of the file has items, whatever its position."""
+    import io
+    import os
+    import shutil
+    import tempfile
+    import contextlib
+    import types
+    from wn import lmf as lmf_
+    # wn/__main__.py parses sys.argv when imported: take only its imports and the _validate function
+    import ast as _ast
+    src_main = (REPO / 'wn' / '__main__.py').read_text()
+    tree = _ast.parse(src_main)
+    keep = [n for n in tree.body if isinstance(n, (_ast.Import, _ast.ImportFrom)) or
+            (isinstance(n, _ast.FunctionDef) and n.name == '_validate')]
+    main_mod = types.ModuleType('wn_main_validate')
+    exec(compile(_ast.Module(body=keep, type_ignores=[]), str(REPO / 'wn' / '__main__.py'), 'exec'), main_mod.__dict__)
+    base = {'label': 'L', 'language': 'en', 'email': 'e', 'license': 'l', 'version': '1', 'meta': None}
+    sound = lambda i: dict(base, id=f'ok{i}')
+    broken = lambda i: dict(base, id=f'bad{i}', entries=[{'id': f'bad{i}-e', 'meta': None,
+                            'lemma': {'writtenForm': 'w', 'partOfSpeech': 'n'},
+                            'senses': [{'id': f'bad{i}-s', 'synset': f'bad{i}-missing', 'meta': None}]}])
+    work = tempfile.mkdtemp(prefix='wncli')
+    bad, cases = [], 0
+    try:
+        for pattern in ('s', 'b', 'sb', 'bs', 'sbs', 'bss', 'ssb', 'bb', 'ss'):
+            lexs = [sound(i) if c == 's' else broken(i) for i, c in enumerate(pattern)]
+            path = os.path.join(work, f'{pattern}.xml')
+            lmf_.dump({'lmf_version': '1.0', 'lexicons': lexs}, path)
+            for select in ('E,W', 'E204', 'E'):
+                cases += 1
+                args = types.SimpleNamespace(FILE=path, select=select, output_file=None)
+                code = None
+                with contextlib.redirect_stdout(io.StringIO()), contextlib.redirect_stderr(io.StringIO()):
+                    try:
+                        main_mod._validate(args)
+                    except SystemExit as exc:
+                        code = exc.code
+                want = 1 if 'b' in pattern else 0
+                if code != want:
+                    bad.append({'lexicons (s=sound, b=broken)': pattern, 'select': select, 'exit status': code,
+                                'expected': want})
+    finally:
+        shutil.rmtree(work, ignore_errors=True)
+    sess.add_bounded('wn.__main__._validate (exit status)', '9 files with 1-3 lexicons (sound/broken in every order) x 3 '
+                     'selections', cases, 'native execution', not bad)
+    if bad:
+        sess.violation_direct('wn.__main__._validate:exit-status', 'exit status does not say whether some lexicon has '
+                              'reported items', {'witness': bad[:3]}, True, functions=('wn.__main__._validate',))
+
+
 def table_obligations() -> list:
     """The relation tables the checks read: REVERSE_RELATIONS is an involution over known relation names (a relation
     and its reverse name each other), decided on the real table."""
@@ -369,6 +420,7 @@ def run(sess: Session):
     for ob in table_obligations():
         sess.check(ob)
     rejection_bounded(sess)
+    cli_bounded(sess)
     sess.trust('vc/pyvc', 'collections.Counter: count(x) > 1 iff x occurs at two positions (A-PY-COUNTER)')
     for item in check_obligations():
         if isinstance(item, tuple):
